@@ -5,7 +5,7 @@ slot and acceptance depends on nothing but the side/reflection/decoder guards; B
 un-hashed transcript field has an enforced fixed width (framing injectivity); B3 the
 password reaches the blinding scalar and the transcript unmodified; B4 the side byte is
 stripped before, and is not part of, the transcript."""
-from ..terms import Const, Sym, App, mk_app, is_app, show, subterms
+from ..terms import Const, Sym, App, mk_app, is_app, show, subterms, is_order_cond
 from .. import session
 from ..session import H
 from .common import include
@@ -64,6 +64,8 @@ def check(ctx, world):
                             continue                     # side comparison
                         if is_app(t, "Eq", "NotEq") and own in t.args:
                             continue                     # reflection comparison
+                        if is_order_cond(session.canon_reencode(t), [own, payload]):
+                            continue                     # hand-written sort of the two messages (each ordering is checked by F3)
                         odd.append(show(t, maxdepth=4) + "=" + str(p))
                     ctx.ob("B1-conditions", cname, not odd, "the key path is conditioned only on side and reflection comparisons" if not odd else
                            "key derivation also depends on: %s" % odd, o.site)
